@@ -99,7 +99,7 @@ def ebnf(draw):
 
 
 def strategy(tier, flags):
-    cfgs = gen_cfg.cfg_desc(var_pools=["std", "long", "lower", "fresh"], term_pools=["ab", "abc", "tok", "upper", "shared"],
+    cfgs = gen_cfg.cfg_desc(var_pools=["std", "long", "lower", "lower", "fresh"], term_pools=["ab", "abc", "tok", "upper", "shared", "shared_lower", "shared_lower"],
                             allow_text=False, start_always=False)
     return st.one_of(machine("fa"), machine("pda"), machine("fst"),
                      st.fixed_dictionaries({"kind": st.just("cfg"), "g": cfgs}), ebnf())
